@@ -95,16 +95,11 @@ class KroneckerProductAddedDiagLinearOperator(AddedDiagLinearOperator):
             if len(self.linear_op.linear_ops) == len(self.diag_tensor.linear_ops) and all(
                 isinstance(dt, ConstantDiagLinearOperator) for dt in self.diag_tensor.linear_ops
             ):
-                # here the log determinant identity is |D + K| = | D| |I + D^{-1} K|
-                # as D is assumed to have constant components, we can look solely at the diag_values
-                diag_term = self.diag_tensor._diagonal().clamp(min=1e-7).log().sum(dim=-1)
+                # a Kronecker product of constant diagonals is a constant diagonal: |K + d I| = prod_i (lambda_i + d)
                 # symeig requires computing the eigenvectors for it to be differentiable
                 evals, _ = self.linear_op._symeig(eigenvectors=True)
-                const_times_evals = KroneckerProductLinearOperator(
-                    *[ee * d.diag_values for ee, d in zip(evals.linear_ops, self.diag_tensor.linear_ops)]
-                )
-                first_term = (const_times_evals._diagonal() + 1).log().sum(dim=-1)
-                return diag_term + first_term
+                evals_plus_diag = evals + self.diag_tensor._diagonal()
+                return torch.log(evals_plus_diag).sum(dim=-1)
 
             else:
                 # we use the same matrix determinant identity: |K + D| = |D| |I + D^{-1}K|
